@@ -18,7 +18,10 @@ def main():
         variants += [("nofuse_sections", ["nofuse_sections"]), ("nofuse_loops", ["nofuse_loops"]), ("nolicm", ["nolicm"])]
     for tag, patches in variants:
         spec = {"tier": a.tier, "A": {"patches": patches}, "B": {}, "mode": "ident", "what": f"optimiser: {tag} vs full"}
-        run_cases(chk, "vlib.kvk", "compare", names, spec, a.jobs)
+        # all passes off: the whole corpus; one pass off at a time: the c17/c02 forms (a full thorough run over the whole
+        # corpus x 4 variants took 3.3 h on 16 loaded cores)
+        sel = names if tag == "noopt" or a.tier == "quick" else [n for n in names if {"c17", "c02"} & corpus.REG[n]["tags"]]
+        run_cases(chk, "vlib.kvk", "compare", sel, spec, a.jobs)
     # sum-factorised kernels are where loop fusion and hoisting do most of their work
     from vlib.formcheck import STRICT_OPTS
     sf = [n for n in corpus.select("c10sf", quick=(a.tier == "quick")) if not a.only or n in a.only.split(",")]
